@@ -184,6 +184,22 @@ carquet_status_t carquet_read_dictionary_page(
             break;
     }
 
+    if (header->num_values < 0) {
+        CARQUET_SET_ERROR(error, CARQUET_ERROR_INVALID_PAGE, "Negative dictionary size");
+        return CARQUET_ERROR_INVALID_PAGE;
+    }
+
+    /* The entries must actually be present in the page: num_values comes
+     * from the (untrusted) page header, page_size is what was read. */
+    if (reader->type != CARQUET_PHYSICAL_BYTE_ARRAY) {
+        if (value_size == 0 ||
+            (size_t)header->num_values > page_size / value_size) {
+            CARQUET_SET_ERROR(error, CARQUET_ERROR_INVALID_PAGE,
+                "Dictionary page too small for its declared entries");
+            return CARQUET_ERROR_INVALID_PAGE;
+        }
+    }
+
     reader->dictionary_count = header->num_values;
 
     if (reader->type == CARQUET_PHYSICAL_BYTE_ARRAY) {
@@ -269,6 +285,10 @@ carquet_status_t carquet_read_data_page_v1(
     size_t bytes_consumed;
 
     int32_t num_values = header->num_values;
+    if (num_values < 0) {
+        CARQUET_SET_ERROR(error, CARQUET_ERROR_INVALID_PAGE, "Negative value count in page header");
+        return CARQUET_ERROR_INVALID_PAGE;
+    }
     if (num_values > max_values) {
         num_values = (int32_t)max_values;
     }
@@ -955,8 +975,22 @@ static carquet_status_t load_next_page_mmap(
      * (levels require RLE decoding which modifies data layout) */
     bool has_levels = (reader->max_def_level > 0 || reader->max_rep_level > 0);
 
+    if (num_values < 0) {
+        CARQUET_SET_ERROR(error, CARQUET_ERROR_INVALID_PAGE, "Negative value count in page header");
+        return CARQUET_ERROR_INVALID_PAGE;
+    }
+
     if (zero_copy_eligible && !has_levels) {
         /* ====== ZERO-COPY PATH ====== */
+
+        /* The view is handed out as num_values fixed-width values, so the
+         * page body must really contain that many. */
+        if (value_size == 0 ||
+            (size_t)num_values > (size_t)page_header.compressed_page_size / value_size) {
+            CARQUET_SET_ERROR(error, CARQUET_ERROR_INVALID_PAGE,
+                "Page body too small for its declared values");
+            return CARQUET_ERROR_INVALID_PAGE;
+        }
 
         /* Free previous owned buffer if any */
         if (reader->decoded_ownership == CARQUET_DATA_OWNED) {
@@ -1258,6 +1292,12 @@ static carquet_status_t load_next_page_fread(
 
     /* Allocate buffers for decoded page data */
     int32_t num_values = page_header.data_page_header.num_values;
+    if (num_values < 0) {
+        if (page_data != compressed) free(page_data);
+        if (compressed) free(compressed);
+        CARQUET_SET_ERROR(error, CARQUET_ERROR_INVALID_PAGE, "Negative value count in page header");
+        return CARQUET_ERROR_INVALID_PAGE;
+    }
     size_t value_size = get_value_size(reader->type, reader->type_length);
     size_t values_buffer_size = value_size * (size_t)num_values;
 
